@@ -104,7 +104,11 @@ SACCT = {"PENDING": "SUBMITTED", "RUNNING": "RUNNING", "FAILED": "FAILED", "TIME
          "NODE_FAIL": "FAILED", "BOOT_FAIL": "FAILED", "DEADLINE": "FAILED", "CANCELLED by 1000": "CANCELLED",
          "CANCELLED": "CANCELLED", "COMPLETED": "COMPLETED"}
 BJOBS = {"PEND": "SUBMITTED", "RUN": "RUNNING", "DONE": "COMPLETED", "EXIT": "FAILED"}
-QSTAT = {"qw": "SUBMITTED", "hqw": "SUBMITTED", "r": "RUNNING", "t": "RUNNING"}
+# qstat(1) state letters: pending (qw), on hold (h), rescheduled (R, a modifier, not the running flag r), running (r),
+# transferring (t). Error (E), deletion (d) and the suspended states are left out: the statement does not say how
+# they should show
+QSTAT = {"qw": "SUBMITTED", "hqw": "SUBMITTED", "hRwq": "SUBMITTED", "hRqw": "SUBMITTED", "Rq": "SUBMITTED",
+         "hRq": "SUBMITTED", "r": "RUNNING", "t": "RUNNING", "Rr": "RUNNING", "Rt": "RUNNING"}
 
 
 def check_states(problems):
@@ -376,8 +380,12 @@ def check_logs(problems):
                 os.unlink(os.path.join(p.path(".gwf/logs"), f))
             want_out, want_err = p.path(".gwf/logs/t1.stdout"), p.path(".gwf/logs/t1.stderr")
             for run in ("1", "2"):
+                # the second run is of a target whose own working directory is NOT the project directory (a template with
+                # working_dir=...): the log files still belong in the PROJECT's .gwf/logs
+                twd = p.dir if run == "1" else p.path("elsewhere")
+                os.makedirs(twd, exist_ok=True)
                 t = Target(name="t1", inputs=[], outputs=[], options={k: v for k, v in defaults.items() if v is not None},
-                           working_dir=p.dir, spec=spec)
+                           working_dir=twd, spec=spec)
                 script = mk().compile_script(t)
                 out, err, trunc = _log_directives(backend, script)
                 exp = {"full": (want_out, want_err), "merged": (want_out, None), "none": ("/dev/null", None)}[mode]
